@@ -7,7 +7,7 @@ namespace Xs.C06
 
 /-- a context-scoped scan returns only frames of that context — adjacent ids included -/
 theorem scoped_scan_only_own (ops : List Op) (w : WfOps ops) (c : Nat) (last : Option Nat)
-    (hc : c + 1 < idBound) (hl : ∀ l, last = some l → l < idBound) :
+    (hc : c < idBound) (hl : ∀ l, last = some l → l < idBound) :
     ∀ f ∈ (after ops).iterFrames (some c) last, f.ctx = c := by
   intro f hf
   rw [iterFrames_ctx (after_inv w).k c last hc hl] at hf
@@ -16,7 +16,7 @@ theorem scoped_scan_only_own (ops : List Op) (w : WfOps ops) (c : Nat) (last : O
   exact this.1
 
 theorem scoped_read_only_own (ops : List Op) (w : WfOps ops) (c : Nat) (last limit : Option Nat)
-    (now : Nat) (hc : c + 1 < idBound) (hl : ∀ l, last = some l → l < idBound) :
+    (now : Nat) (hc : c < idBound) (hl : ∀ l, last = some l → l < idBound) :
     (∀ f ∈ ((after ops).readSync (some c) last limit now).2, f.ctx = c) ∧
     (∀ f ∈ ((after ops).readHist (some c) last limit now).2, f.ctx = c) := by
   have wr : WfRead (some c) last := ⟨(by intro c' e; injection e with e; subst e; exact hc), hl⟩
@@ -34,7 +34,7 @@ theorem scoped_read_only_own (ops : List Op) (w : WfOps ops) (c : Nat) (last lim
     exact this.2.1.1
 
 /-- nothing of the context is hidden from its own scoped scan -/
-theorem scoped_scan_complete (ops : List Op) (w : WfOps ops) (c : Nat) (hc : c + 1 < idBound)
+theorem scoped_scan_complete (ops : List Op) (w : WfOps ops) (c : Nat) (hc : c < idBound)
     (f : Frame) (hf : f ∈ frames (after ops)) (e : f.ctx = c) :
     f ∈ (after ops).iterFrames (some c) none := by
   rw [iterFrames_ctx (after_inv w).k c none hc (by intro l e; cases e)]
